@@ -21,6 +21,14 @@ func main() {
 		probeComplete(dir, l, c)
 		return
 	}
+	if len(os.Args) > 2 && os.Args[2] == "syms" {
+		probeSyms(dir, os.Args[3:])
+		return
+	}
+	if len(os.Args) > 2 && os.Args[2] == "defsall" {
+		probeDefsAll(dir)
+		return
+	}
 	if len(os.Args) > 2 && os.Args[2] == "defs" {
 		probeDefs(dir)
 		return
